@@ -375,6 +375,19 @@ theorem front_end_total (s : List Char) :
   | spin => rw [hl] at h; exact h.elim
   | fuel => rw [hl] at h; exact h.elim
 
+/-- **text → tree with the memo table is total and polynomial**: lexing ends; the memoised parser then accepts a tree covering
+    all tokens or rejects, with at most `|classes| * (|tokens| + 1)` executions of `_get` -/
+theorem front_end_total_memo (s : List Char) :
+    (∃ toks, Lex.lex lexerTable s = .ok toks ∧
+      (astBuildM generated (toks.length * 6 + 6) "EntryPointToken" toks).2 ≤ generated.composites.length * (toks.length + 1) ∧
+      ((∃ t, (astBuildM generated (toks.length * 6 + 6) "EntryPointToken" toks).1 = .accept t ∧ t.leaves = toks) ∨
+        (astBuildM generated (toks.length * 6 + 6) "EntryPointToken" toks).1 = .reject)) ∨
+    (∃ r, Lex.lex lexerTable s = .undefined r) ∨ Lex.lex lexerTable s = .tooLarge := by
+  rcases front_end_total s with ⟨toks, hl, _⟩ | h | h
+  · exact Or.inl ⟨toks, hl, (generated_parse_steps_bound toks).1, (parse_total_memo toks).2⟩
+  · exact Or.inr (Or.inl h)
+  · exact Or.inr (Or.inr h)
+
 /-- non-vacuity: a formula is lexed into its tokens -/
 example : Lex.lex lexerTable "=SUMIFS(A1:B2, 'x y'!$C$3 ,\">1\")%".toList =
     .ok [("EqOperatorToken", "="), ("SumIfSKeywordToken", "SUMIFS"), ("BracketStartToken", "("), ("MatrixOfCellIdentifiersToken", "A1:B2"),
